@@ -4,7 +4,8 @@
 (3) record what was run and what happened in the seed's meta.json under 'verif'.  Developer tool, not a registered check."""
 import json, os, subprocess, sys, time, re
 
-FLAGS = {"C13": ("", "-lopenblas"), "C14": ("", "-llapack -lopenblas"), "C15": ("", "-lfftw3"), "C17": ("", "-lboost_serialization")}
+FLAGS = {"C13": ("", "-lopenblas"), "C14": ("", "-llapack -lopenblas"), "C15": ("", "-lfftw3"), "C17": ("", "-lboost_serialization"),
+         "C18": ("-I/usr/lib/x86_64-linux-gnu/openmpi/include -I/usr/lib/x86_64-linux-gnu/openmpi/include/openmpi", "-L/usr/lib/x86_64-linux-gnu/openmpi/lib -lmpi")}
 
 def sh(cmd, env=None):
     e = dict(os.environ); e.update(env or {})
